@@ -90,8 +90,9 @@ func (t *tracer) call(c int, cl daemondefs.Client, o storex.Op) error {
 // ---- daemon instances
 
 type daemonInst struct {
-	sock string
-	stop func()
+	sock   string
+	stop   func()
+	keeper daemondefs.Client // connected for the daemon's whole life: the daemon exits when its last client leaves
 }
 
 const daemonEnv = "VERIF_C26_DAEMON"
@@ -122,13 +123,20 @@ func startDaemon(dir string, separate bool) (*daemonInst, error) {
 		case <-time.After(30 * time.Second):
 			return nil, fmt.Errorf("daemon not ready after 30s")
 		}
-		return &daemonInst{sock, func() {
+		stop := func() {
 			close(sig)
 			select {
 			case <-done:
-			case <-time.After(30 * time.Second):
+			case <-time.After(60 * time.Second):
 			}
-		}}, nil
+		}
+		keeper := daemon.NewClient(sock)
+		if _, err := keeper.Version(); err != nil {
+			keeper.Close()
+			stop()
+			return nil, fmt.Errorf("daemon does not answer: %v", err)
+		}
+		return &daemonInst{sock, stop, keeper}, nil
 	}
 	cmd := exec.Command(os.Args[0])
 	cmd.Env = append(os.Environ(), daemonEnv+"="+sock+"|"+db)
@@ -138,13 +146,19 @@ func startDaemon(dir string, separate bool) (*daemonInst, error) {
 	}
 	exited := make(chan struct{})
 	go func() { cmd.Wait(); close(exited) }()
-	deadline := time.Now().Add(30 * time.Second)
+	// Readiness: the first client whose request succeeds STAYS connected as the keeper. (A probe client
+	// that connects and leaves makes the daemon exit by design -- "all clients disconnected" -- which is
+	// not an error of the system under test; earlier versions of this harness did exactly that.)
+	deadline := time.Now().Add(120 * time.Second)
+	var keeper daemondefs.Client
 	for {
-		cl := daemon.NewClient(sock)
-		_, err := cl.Version()
-		cl.Close()
-		if err == nil {
-			break
+		if _, err := os.Stat(sock); err == nil { // connect only once the socket exists: no half-made connections
+			cl := daemon.NewClient(sock)
+			if _, err = cl.Version(); err == nil {
+				keeper = cl
+				break
+			}
+			cl.Close()
 		}
 		select {
 		case <-exited:
@@ -153,11 +167,12 @@ func startDaemon(dir string, separate bool) (*daemonInst, error) {
 		}
 		if time.Now().After(deadline) {
 			cmd.Process.Kill()
-			return nil, fmt.Errorf("daemon process not serving after 30s: %v", err)
+			<-exited
+			return nil, fmt.Errorf("daemon process not serving after 120s")
 		}
 		time.Sleep(5 * time.Millisecond)
 	}
-	return &daemonInst{sock, func() {
+	return &daemonInst{sock: sock, keeper: keeper, stop: func() {
 		cmd.Process.Signal(syscall.SIGTERM)
 		select {
 		case <-exited:
@@ -218,11 +233,7 @@ func record(c *lib.Ctx, scratch, tag string, seed int64, n int, separate bool) (
 		if err != nil {
 			return nil, lib.Infra("start daemon: %v", err)
 		}
-		keeper := daemon.NewClient(d.sock) // keeps the daemon alive between epochs; reads base/final state
-		if _, err := keeper.Version(); err != nil {
-			d.stop()
-			return nil, lib.Infra("daemon does not answer: %v", err)
-		}
+		keeper := d.keeper // keeps the daemon alive between epochs; reads base/final state
 		epochs := 1 + rng.Intn(5)
 		for e := 0; e < epochs && len(out) < n; e++ {
 			h, err := recordEpoch(c, rng, d.sock, keeper, tag)
